@@ -1470,7 +1470,9 @@ namespace awkward {
           parents.data(),
           maxcount,
           nextlen,
-          nextcarry.data());
+          nextcarry.data(),
+          shifts.data(),
+          shifts.length());
         util::handle_error(err7, classname(), identities_.get());
       }
 
@@ -2031,7 +2033,9 @@ namespace awkward {
         parents.data(),
         maxcount,
         nextlen,
-        nextcarry.data());
+        nextcarry.data(),
+        shifts.data(),
+        shifts.length());
       util::handle_error(err7, classname(), identities_.get());
 
       ContentPtr nextcontent = content_.get()->carry(nextcarry, false);
